@@ -353,6 +353,11 @@ func genLivingCase(prop, tier string, r *rand.Rand) *Case {
 		}
 	}
 	c := &Case{Prop: prop, Engine: "publish", Docs: []string{g.Text(), g2.Text()}, Today: today}
+	if r.IntN(4) == 0 {
+		// files from programs that pad their lines with blanks
+		every := 2 + r.IntN(3)
+		c.Docs = []string{padText(c.Docs[0], every), padText(c.Docs[1], every)}
+	}
 	cfg := &PublishCfg{Options: genPubOptions(r, []string{"hide", "placeholder"}), Jobs: pick(r, []int{1, 1, 2, 8})}
 	cfg.Options.MaxLivingAgeZero = maxAgeZero
 	for _, tp := range people {
@@ -470,6 +475,9 @@ func runLivingCase(t *testing.T, c *Case, cr *CaseResult) *CaseResult {
 	v := PubVariant{Jobs: cfg.Jobs, Prior: -1}
 	if len(cfg.Variants) > 0 {
 		v = cfg.Variants[0]
+	}
+	if len(c.Docs) > 0 && strings.Contains(c.Docs[0], " \n") {
+		cr.Probes["blank_padded_input"]++
 	}
 	// history
 	var run *pubRun
